@@ -801,7 +801,9 @@ def decimal_to_digits(decimal, min_digits=None) -> int:
 
     digits: int, number of digits to the first nonzero decimal
     """
-    digits = abs(int(np.log10(decimal)))
+    # a value of ten or more has no decimal digits: taking the absolute
+    # value here would ask for more digits the larger the value is
+    digits = max(-int(np.log10(decimal)), 0)
     if min_digits is not None:
         digits = np.clip(digits, min_digits, 20)
     return int(digits)
